@@ -155,10 +155,22 @@ def rnd_packet(rng, ndata):
     return hdr.to_bytes(6, "big") + bytes(body)
 
 
+def try_build(doc):
+    """the definition object, or None when the library refuses to build it (the case is kept: its implementation outcome is that
+    error, which the model must then share)"""
+    import docs as _docs
+    try:
+        return _docs.definition_py(doc)
+    except Exception:  # noqa: BLE001
+        return None
+
+
 def fit_packet(definition_obj, pkt):
     """resize a packet so that its definition consumes exactly all of it (when it parses at all); returns variants"""
     from space_packet_parser import packets
     import warnings
+    if definition_obj is None:
+        return [pkt]
     long_pkt = pkt + bytes(64)
     try:
         with warnings.catch_warnings():
